@@ -297,6 +297,14 @@ pub fn c08_cli_family(rep: &mut Report) {
     let _ = File::default();
 }
 
+/// the c08 sources start with a well-formed `Good` item; this removes it so that the offending item stands alone
+pub fn strip_good_item(src: &str) -> String {
+    match src.split_once("\n\n") {
+        Some((first, rest)) if first.contains("Good") && rest.contains("#[typeshare") => rest.to_string(),
+        _ => src.to_string(),
+    }
+}
+
 /// C08, arrival orders: one or two files with an unsupported construct among good files of the same fold bucket,
 /// every order in which the results can reach the collector (forced through the hooks). The run must fail, name the
 /// offending file(s) and leave the pre-existing output untouched whichever file is folded last.
@@ -325,10 +333,12 @@ pub fn c08_arrival_family(rep: &mut Report) {
         let bad_src = c.1.replace("Good", "BadGood").replace("Outer", "BadOuter");
         let second = &constructs[(ci + 1) % constructs.len()];
         let bad2_src = second.1.replace("Good", "SecondGood").replace("Outer", "SecondOuter").replace("NAME", "SECOND_NAME");
-        for two_bad in [false, true] {
+        for (two_bad, bad_alone) in [(false, false), (false, true), (true, false)] {
             if two_bad && !thorough && ci > 1 {
                 continue;
             }
+            // `bad_alone`: the offending item is the only annotated item of its file (one type per file)
+            let bad_src = if bad_alone { strip_good_item(&bad_src) } else { bad_src.clone() };
             let files: Vec<(String, String)> = vec![
                 ("fbad".to_string(), bad_src.clone()),
                 if two_bad { ("fbad2".to_string(), bad2_src.clone()) } else { ("fgood1".to_string(), e3::good_source("fgood1")) },
@@ -342,7 +352,7 @@ pub fn c08_arrival_family(rep: &mut Report) {
                         let mut schedule = e3::start_barrier(&stems);
                         schedule.extend(perm.iter().map(|i| format!("send:{}", stems[*i])));
                         jobs.push(Job {
-                            label: format!("construct={}|bad_files={}|order={}|mode={}", c.0, bad.len(), perm.iter().map(|i| stems[*i]).collect::<Vec<_>>().join(">"), if multi { "multi-same-crate" } else { "single" }),
+                            label: format!("construct={}|bad_files={}|alone={}|order={}|mode={}", c.0, bad.len(), bad_alone as u8, perm.iter().map(|i| stems[*i]).collect::<Vec<_>>().join(">"), if multi { "multi-same-crate" } else { "single" }),
                             files: files.clone(),
                             bad: bad.clone(),
                             schedule,
@@ -378,7 +388,7 @@ pub fn c08_arrival_family(rep: &mut Report) {
     }
     rep.cov(
         "cli_rejection_arrival_orders",
-        json!({"runs": jobs.len(), "rejected_with_error": rejected, "files_per_run": 3, "orders": 6, "bad_files": [1, 2], "modes": ["single-file", "multi-file, one crate"],
+        json!({"runs": jobs.len(), "rejected_with_error": rejected, "files_per_run": 3, "orders": 6, "bad_files": [1, 2], "offending_item_alone_in_its_file": [false, true], "modes": ["single-file", "multi-file, one crate"],
                "constructs": constructs.iter().map(|c| c.0).collect::<Vec<_>>(), "languages": langs.iter().map(|l| l.name()).collect::<Vec<_>>(), "how": "each file is its own walk root; the hooks release the sends in the given order, so the collector folds the files in exactly that order"}),
     );
     rep.cov_add("evaluations", jobs.len() as u64);
